@@ -4,7 +4,7 @@
    string is one, so "for all s" covers invalid UTF-8, <, >, &, quotes,
    newlines alike. *)
 From Coq Require Import NArith List Bool String.
-From RV Require Import Http.EscapeModel Http.EscapeProofs Http.PagesProofs.
+From RV Require Import Http.EscapeModel Http.EscapeProofs Http.PagesProofs Http.ResponseModel Http.ResponseProofs.
 Import ListNotations.
 Local Open Scope N_scope.
 
@@ -108,6 +108,68 @@ Theorem C19_metrics_writer_unescaped_refuted :
   prom_parse (prom_labels [(lit "router", lit "a"",x=""b")]) <> Some [(lit "router", lit "a"",x=""b")].
 Proof. exact prom_writer_unescaped_refuted. Qed.
 Print Assumptions C19_metrics_writer_unescaped_refuted.
+
+(* ---------------------------------------------------------------- every RESPONSE of the two endpoints *)
+(* A response is (status, content type, body fragments tagged by origin). [resp_safe]: the content type is text/plain,
+   or every field of the body is escaped for the context it stands in. Every answer of the router list - the page and
+   the 400 for a rejected sort_by / sort_order value, for every decoded path and every list of decoded query pairs - and
+   every answer of the router info endpoint is safe. *)
+Theorem C19_list_responses_safe : forall api rs path params r,
+  list_response api rs path params = Some r -> resp_safe r = true.
+Proof. exact list_response_safe. Qed.
+Print Assumptions C19_list_responses_safe.
+
+Theorem C19_info_responses_safe : forall api tpl req rt r,
+  info_response api tpl req rt = Some r -> resp_safe r = true.
+Proof. exact info_response_safe. Qed.
+Print Assumptions C19_info_responses_safe.
+
+(* Reflected request text is either escaped or served as text/plain: in a safe response every fragment that comes from
+   the request (path segment or query value) is escaped unless the response is text/plain ... *)
+Theorem C19_reflected_request_text_escaped_or_plain : forall r, resp_safe r = true ->
+  forall k v, In (FromRequest, Fld k v) (rs_body r) -> rs_ctype r = CtPlain \/ k <> KRaw.
+Proof. exact reflected_escaped_or_plain. Qed.
+Print Assumptions C19_reflected_request_text_escaped_or_plain.
+
+(* ... and a safe response that a client may take for markup has the same tag skeleton whatever the field values are. *)
+Theorem C19_safe_markup_structure : forall r t2, resp_safe r = true -> sniffable (rs_ctype r) = true ->
+  same_shape (untag (rs_body r)) t2 = true -> page_skeleton (untag (rs_body r)) = page_skeleton t2.
+Proof. exact safe_markup_structure. Qed.
+Print Assumptions C19_safe_markup_structure.
+
+(* What the list endpoint answers: the page (200, text/html), or 400 text/plain whose one request-derived fragment is the
+   rejected value, raw. *)
+Theorem C19_list_response_classified : forall api rs path params r,
+  list_response api rs path params = Some r ->
+  (rs_status r = 200 /\ rs_ctype r = CtHtml) \/
+  (rs_status r = 400 /\ rs_ctype r = CtPlain /\ exists v, reflected r = [(KRaw, v)]).
+Proof. exact list_response_status. Qed.
+Print Assumptions C19_list_response_classified.
+
+(* The same 400 body served as text/html (one helper for all three responses, seeded change C19-c2): not safe, the
+   rejected value `<img src=x onerror=alert(1)>` changes the structure of the document; escaped, it would not. *)
+Theorem C19_error_answer_as_html_refuted :
+  match list_response_all_html (lit "/routers/") [] (lit "/routers/") [(lit "sort_by", hostile)],
+        list_response_all_html (lit "/routers/") [] (lit "/routers/") [(lit "sort_by", lit "x")] with
+  | Some r1, Some r2 =>
+      resp_safe r1 = false /\ reflected r1 = [(KRaw, hostile)] /\
+      same_shape (untag (rs_body r1)) (untag (rs_body r2)) = true /\
+      page_skeleton (untag (rs_body r1)) <> page_skeleton (untag (rs_body r2)) /\
+      page_skeleton (untag (escape_reflected (rs_body r1))) = page_skeleton (untag (rs_body r2))
+  | _, _ => False
+  end.
+Proof. exact all_html_refuted. Qed.
+Print Assumptions C19_error_answer_as_html_refuted.
+
+(* non-vacuity of the response theorems: the code as it is answers the hostile sort_order with a 400 text/plain that
+   does contain the value verbatim *)
+Example C19_response_example :
+  match list_response (lit "/routers/") [] (lit "/routers/") [(lit "sort_order", hostile)] with
+  | Some r => rs_status r = 400 /\ rs_ctype r = CtPlain /\ resp_safe r = true /\ reflected r = [(KRaw, hostile)] /\
+              contains hostile (body_text r) = true
+  | None => False
+  end.
+Proof. exact plain_is_safe_example. Qed.
 
 (* non-vacuity: two routers, one with hostile strings, one benign: the
    hypotheses hold and the hostile page really contains the escaped text *)
